@@ -134,7 +134,6 @@ Definition str_of_order (v : pyval) : pystr :=
   match v with VInt z => str_of_Z z | VFlt r => r | _ => [] end.
 Definition order_lookup (c : ascii) : option pyval :=
   match bond_to_order_lookup [c] with Ok v => Some v | Err _ => None end.
-Definition opt_truthy (o : option pyval) : bool := match o with Some v => truthy v | None => false end.
 
 (** a new atom was read: [current_order = None; prev_node = node_count; node_count += 1] after
     [smile += text] *)
@@ -144,19 +143,20 @@ Definition atom_done (m : mst) (text : pystr) : mst :=
      ez_isomer_atoms := ez_isomer_atoms m; attributes := attributes m |}.
 
 (** the descriptor [d] is complete and the next character is NOT taken as its order
-    ([elif current_order: … else: order = 1]) *)
+    ([elif current_order is not None: … else: order = 1]) *)
 Definition desc_done (m : mst) (d : pystr) : mst :=
-  if opt_truthy (current_order m) then
-    let order := match current_order m with Some v => v | None => VInt 1 end in
+  match current_order m with
+  | Some order =>
     {| m_mode := MTop; smile := py_drop_last (smile m); node_count := node_count m; prev_node := prev_node m;
        current_order := None; anchor := anchor m;
        bonding_descrpt := nd_append (prev_node m) (d ++ str_of_order order) (bonding_descrpt m);
        ez_isomer_atoms := ez_isomer_atoms m; attributes := attributes m |}
-  else
+  | None =>
     {| m_mode := MTop; smile := smile m; node_count := node_count m; prev_node := prev_node m;
-       current_order := current_order m; anchor := anchor m;
+       current_order := None; anchor := anchor m;
        bonding_descrpt := nd_append (prev_node m) (d ++ str_of_order (VInt 1)) (bonding_descrpt m);
-       ez_isomer_atoms := ez_isomer_atoms m; attributes := attributes m |}.
+       ez_isomer_atoms := ez_isomer_atoms m; attributes := attributes m |}
+  end.
 (** [if smile_iter.peek() in bond_to_order and node_count == 0: order = bond_to_order[next(smile_iter)]] *)
 Definition desc_done_lead (m : mst) (d : pystr) (order : pyval) : mst :=
   {| m_mode := MTop; smile := smile m; node_count := node_count m; prev_node := prev_node m;
@@ -179,6 +179,14 @@ Definition atom_step (fo : float_oracle) (m : mst) (atom attribute_str : pystr) 
   else if rec then Ok (set_mode m (MAtom atom (attribute_str ++ [c]) rec))
   else Ok (set_mode m (MAtom (atom ++ [c]) attribute_str rec)).
 
+(** a ring digit or '%': collect_ring_number takes it and the digits / '%' that follow (mode MRing),
+    [smile += part_str], then [current_order = None].  Nothing reads [current_order] while the run
+    is collected, so it is cleared when the run is entered. *)
+Definition ring_enter (m : mst) (c : ascii) : mst :=
+  {| m_mode := MRing; smile := smile m ++ [c]; node_count := node_count m; prev_node := prev_node m;
+     current_order := None; anchor := anchor m; bonding_descrpt := bonding_descrpt m;
+     ez_isomer_atoms := ez_isomer_atoms m; attributes := attributes m |}.
+
 (** the if/elif chain of the [for] body on the character [c] *)
 Definition top_step (m : mst) (c : ascii) : res mst :=
   if Ascii.eqb c "["%char then Ok (set_mode m MOpen)
@@ -200,7 +208,7 @@ Definition top_step (m : mst) (c : ascii) : res mst :=
             current_order := Some v; anchor := anchor m;
             bonding_descrpt := bonding_descrpt m; ez_isomer_atoms := ez_isomer_atoms m; attributes := attributes m |}
   | None =>
-      if ringch c then Ok (set_mode (emit m [c]) MRing)          (* collect_ring_number(…, prev_node, rings) *)
+      if ringch c then Ok (ring_enter m c)                       (* collect_ring_number(…, prev_node, rings) *)
       else if char_in c passthrough_chars then Ok (emit m [c])
       else if char_in c ez_chars then
         Ok {| m_mode := MTop; smile := smile m; node_count := node_count m; prev_node := prev_node m;
